@@ -63,6 +63,42 @@ prop("C03",
      residual="that apply_diff_list(d) on the replica has the same effect as the user-level operation had on the sender (needs Model semantics)")
 
 
+DISP_ASSUME = ["coordinates and displacement parameters lie within +-2^22 (call-site invariant of parsed references and grid positions; the parser is not under contract)",
+               "string layout produced by format!/quote_name after the coordinates are fixed is not specified",
+               "displace_links applies its map to every key; displace_cells/displace_cf_ranges visit every formula/range (not under contract)"]
+prop("C12",
+     units=["refshift", "refarms", "dispsites"],
+     level="proof",
+     claim="on insertion every reference coordinate goes through shift(x,p,+k) (so it keeps pointing at the same cell; ranges over the insertion point grow), "
+           "off-grid results (row or column) print #REF!, both corners of a range are displaced alike, and link keys / CF corners / the DisplaceData built by insert_rows/insert_columns are the same shift",
+     assumptions=DISP_ASSUME,
+     residual="cell content/type/style preservation goes through move_cell -> text re-entry (string semantics); array-formula footprints")
+prop("C13",
+     units=["refshift", "refarms", "dispsites"],
+     level="proof",
+     claim="on deletion every reference coordinate goes through shift(x,p,-k): before the band untouched, inside the band => #REF! (None), after it shifted by -k; same for link keys, CF corners and the DisplaceData built by delete_rows/delete_columns",
+     assumptions=DISP_ASSUME,
+     residual="cell content/type/style preservation via text re-entry; column/row descriptor rebuild (planned unit delcols)")
+prop("C14",
+     units=["refshift", "dispsites"],
+     level="proof",
+     claim="lemma over the C12/C13 contracts: shift(shift(x,p,k),p,-k) == x for every coordinate when nothing is pushed off-grid, so formulas references, link keys and CF corners return to their values",
+     assumptions=DISP_ASSUME,
+     residual="cell contents via text re-entry; row/column descriptor sizes and styles (insert/delete fragments not yet under contract)")
+prop("C15",
+     units=["refshift", "refarms", "dispsites"],
+     level="proof",
+     claim="RowMove/ColumnMove arms of the reference rewriter, CF corner maps and link-key maps all equal move1, which has an inverse (lemma_move1_inverse): a single move is a permutation of the axis and references follow their cells",
+     assumptions=DISP_ASSUME,
+     residual="composition of single moves into a block move (move_rows_action loop), cell content re-entry, hidden-row handling")
+prop("C33",
+     units=["refshift", "dispsites"],
+     level="proof",
+     claim="link-key maps, CF corner maps and the formula reference rewriter are proved equal to the SAME spec functions (lemma_metadata_agrees_with_formulas): deleted <=> None <=> #REF!, at every edge position",
+     assumptions=DISP_ASSUME,
+     residual="CF sqref string splitting/printing, CF rule formulas (parser), cut/paste, clear+undo of links")
+
+
 def evidence(pid, tier, seed, results, scan_results, kani_results, violations, known_hits, undecided, wall):
     P = PROPS[pid]
     obligations = 0
